@@ -254,6 +254,22 @@ Proof.
   unfold in_pool, n_contains, n_lan, n_bcast, n_bits. destruct b; intros [H1 H2]; apply range_pcontains; simpl in *; lia.
 Qed.
 
+(* under sub_ok the handler's subnets are the configuration's *)
+Lemma ok_lan c b : sub_ok c -> n_lan c b = want_lan c b.
+Proof. intros [H1 [H2 [_ [_ [_ [H6 [H7 _]]]]]]]. unfold n_lan, want_lan. destruct b; congruence. Qed.
+Lemma ok_bits c b : sub_ok c -> n_bits c b = want_bits c b.
+Proof. intros [H1 [H2 [_ [_ [_ [H6 [H7 _]]]]]]]. unfold n_bits, want_bits. destruct b; congruence. Qed.
+Lemma ok_bcast c b : sub_ok c -> n_bcast c b = want_bcast c b.
+Proof. intros H. unfold n_bcast, want_bcast. rewrite (ok_lan c b H), (ok_bits c b H). reflexivity. Qed.
+Lemma ok_contains c b x : sub_ok c -> n_contains c b x = want_contains c b x.
+Proof. intros H. unfold n_contains, want_contains. rewrite (ok_lan c b H), (ok_bits c b H). reflexivity. Qed.
+Lemma ok_server c b : sub_ok c -> n_server c b = c_hostip c.
+Proof. intros [_ [_ [_ [_ [H5 [_ [_ [_ [_ H10]]]]]]]]]. unfold n_server. destruct b; congruence. Qed.
+Lemma ok_dns c b : sub_ok c -> n_dns c b = want_dns c b.
+Proof. intros [_ [_ [_ [H4 [_ [_ [_ [_ [H9 _]]]]]]]]]. unfold n_dns, want_dns. destruct b; congruence. Qed.
+Lemma ok_gw c b : sub_ok c -> n_gw c b = if b then c_nfip c else c_routerip c.
+Proof. intros [_ [_ [H3 [_ [_ [_ [_ [H8 _]]]]]]]]. unfold n_gw. destruct b; congruence. Qed.
+
 (* ---------------------------------------------------------------- *)
 (* allocIPOffer *)
 
@@ -505,7 +521,11 @@ Definition ack_facts (c : cfg) (now : Z) (s0 : dstate) (m : dmsg) (x : ip) : Pro
   (exists l0, tget (getcid m) (tbl s0) = Some l0 /\ l_mac l0 = m_chaddr m /\
      ((l_state l0 = SDiscover /\ l_xid l0 = Some (m_xid m) /\ l_offer l0 = Some x) \/
       (l_state l0 = SAllocated /\ l_ip l0 = Some x /\ (l_exp l0 <? now)%Z = false))) /\
-  asked m = x /\ other_server c m = false.
+  asked m = x /\
+  match m_sid m with   (* no server identifier, or ours *)
+  | Some v => v = 0 \/ v = n_server c (sess_captured (ss s0) (m_chaddr m))
+  | None => True
+  end.
 
 Definition nak_or_good_ack (c : cfg) (now : Z) (s0 : dstate) (m : dmsg) (s' : dstate) (r : reply) : Prop :=
   r = mk_reply c RNak m 0 (sess_captured (ss s0) (m_chaddr m)) \/
@@ -521,7 +541,7 @@ Lemma request_ok c now s0 m s' rp :
   Inv c s0 -> handleRequest c now s0 m = (s', rp) ->
   Inv c s' /\ forall r, rp = Some r -> nak_or_good_ack c now s0 m s' r.
 Proof.
-  intros HI. unfold handleRequest.
+  intros HI. unfold handleRequest, classify.
   set (req0 := match m_req m with Some r => r | None => 0 end).
   set (sid := match m_sid m with Some r => r | None => 0 end).
   set (cap := sess_captured (ss s0) (m_chaddr m)).
@@ -563,7 +583,7 @@ Proof.
             l_mac l = m_chaddr m ->
             ((l_state l = SDiscover /\ l_xid l = Some (m_xid m) /\ l_offer l = Some req) \/
              (l_state l = SAllocated /\ l_ip l = Some req /\ (l_exp l <? now)%Z = false)) ->
-            other_server c m = false ->
+            match m_sid m with Some v => v = 0 \/ v = n_server c cap | None => True end ->
             do_ack c now m s2 l = (s'', rp') ->
             Inv c s'' /\ forall r, rp' = Some r -> nak_or_good_ack c now s0 m s'' r).
   { intros s2 s'' rp' Ht HI2 Tk Hmac Hst Hos Hd. unfold cap in *.
@@ -612,8 +632,7 @@ Proof.
            ++ left. apply orb_false_iff in C4 as [A B]. apply negb_false_iff in A, B.
               apply oeqb_eq in A, B. auto.
            ++ right. apply negb_false_iff, oeqb_eq in C5. auto.
-        -- unfold other_server. unfold sid in SV, Hsel. destruct (m_sid m) as [v|]; auto.
-           unfold n_server in SV. subst v. rewrite N.eqb_refl. destruct (c_hostip c =? 0); reflexivity.
+        -- unfold sid in SV. destruct (m_sid m) as [v|]; auto.
   - (* Renewing *)
     destruct (negb (lstate_eqb (l_state l) SAllocated) || taken s1 l req || negb (oeqb (l_ip l) (Some req))
               || negb (l_mac l =? m_chaddr m) || (l_exp l <? now)%Z) eqn:C.
@@ -622,8 +641,8 @@ Proof.
       apply orb_false_iff in C as [C C3]. apply orb_false_iff in C as [C1 C2].
       intros H. apply (ACK s1 s' rp); auto.
       * right. apply negb_false_iff in C1, C3. apply lstate_eqb_eq in C1. apply oeqb_eq in C3. auto.
-      * unfold other_server. assert (Z0 : sid = 0) by (apply Hnsel; discriminate).
-        unfold sid in Z0. destruct (m_sid m) as [v|]; auto. subst v. reflexivity.
+      * assert (Z0 : sid = 0) by (apply Hnsel; discriminate).
+        unfold sid in Z0. destruct (m_sid m) as [v|]; auto.
   - (* Rebinding *)
     destruct (lstate_eqb (l_state l) SFree && attack_mode c cap).
     + intros H. pinv H. apply NAK. apply inv_update. exact HI1.
@@ -638,8 +657,8 @@ Proof.
         -- apply inv_update. exact HI1.
         -- right. apply negb_false_iff in C1, C3. apply lstate_eqb_eq in C1. apply oeqb_eq in C3.
            rewrite C1 in CE. simpl in CE. auto.
-        -- unfold other_server. assert (Z0 : sid = 0) by (apply Hnsel; discriminate).
-           unfold sid in Z0. destruct (m_sid m) as [v|]; auto. subst v. reflexivity.
+        -- assert (Z0 : sid = 0) by (apply Hnsel; discriminate).
+           unfold sid in Z0. destruct (m_sid m) as [v|]; auto.
   - (* Rebooting *)
     destruct (lstate_eqb (l_state l) SFree && attack_mode c cap).
     + intros H. pinv H. apply NAK. apply inv_update. exact HI1.
@@ -654,8 +673,8 @@ Proof.
         -- apply inv_update. exact HI1.
         -- right. apply negb_false_iff in C1, C3. apply lstate_eqb_eq in C1. apply oeqb_eq in C3.
            rewrite C1 in CE. simpl in CE. auto.
-        -- unfold other_server. assert (Z0 : sid = 0) by (apply Hnsel; discriminate).
-           unfold sid in Z0. destruct (m_sid m) as [v|]; auto. subst v. reflexivity.
+        -- assert (Z0 : sid = 0) by (apply Hnsel; discriminate).
+           unfold sid in Z0. destruct (m_sid m) as [v|]; auto.
 Qed.
 
 (* ---------------------------------------------------------------- *)
@@ -792,16 +811,17 @@ Proof.
 Qed.
 
 Theorem not_reserved_all : forall c h t m r,
-  In t (trace c (init c) h) -> op_msg (t_op t) = Some m -> t_reply t = Some r ->
+  sub_ok c -> In t (trace c (init c) h) -> op_msg (t_op t) = Some m -> t_reply t = Some r ->
   c11_not_reserved c (t_pre t) m r = true.
 Proof.
-  intros c h t m r Hin Hm Hr. destruct (trace_reply c h t r Hin Hr) as [_ [_ G]].
+  intros c h t m r Hok Hin Hm Hr. destruct (trace_reply c h t r Hin Hr) as [_ [_ G]].
   unfold c11_not_reserved. destruct (is_lease_reply r) eqn:L; auto. simpl.
   destruct (good_type _ _ _ _ _ G L) as [m' [x [Hm' [Hx [[[[P1 P2] [O1 O2]] [T _]] _]]]]].
   rewrite Hm in Hm'. inversion Hm'; subst m'. rewrite Hx.
   unfold reserved, client_net, sess_at.
   set (b := sess_captured (ss (parse_effect c (t_pre t) m)) (m_chaddr m)) in *.
   unfold res_own, res_router, res_network, res_broadcast, res_outside, res_tracked_other.
+  rewrite <- (ok_lan c b Hok), <- (ok_bcast c b Hok), <- (ok_contains c b x Hok).
   rewrite (in_pool_contains c b x) by (split; auto).
   apply N.eqb_neq in O1, O2. rewrite O1, O2.
   assert (E1 : (x =? n_lan c b) = false) by (apply N.eqb_neq; lia).
